@@ -308,7 +308,8 @@ def replay(cases, envs, backend: str = "numpy", nproc: int = 16, batch: int = 12
                     continue
                 stats["errors"] += 1
                 bad.append({"kind": "error", "backend": backend, "text": text, "style": st, "exception": ename,
-                            "message": msg, "tokens": cases[ci][st], "vals": cases[ci]["vals"]})
+                            "message": msg, "tokens": cases[ci][st], "vals": cases[ci]["vals"],
+                            "case": {k: cases[ci][k] for k in ("tmin", "tfull", "bool", "vals")}, "envs": envs})
             for i, got in out["values"].items():
                 ci, st, text = b[int(i)]
                 c = cases[ci]
@@ -330,6 +331,6 @@ def replay(cases, envs, backend: str = "numpy", nproc: int = 16, batch: int = 12
                         bad.append({"kind": "value", "backend": backend, "text": text, "style": st, "point": p,
                                     "env": {k: resid.fmt(x) for k, x in envs[p].items()},
                                     "got": got[p], "want": float(want), "want_exact": resid.fmt(v),
-                                    "tokens": c[st]})
+                                    "tokens": c[st], "case": {k: c[k] for k in ("tmin", "tfull", "bool", "vals")}, "envs": envs})
     stats["wall_s"] = round(time.time() - t0, 1)
     return stats, bad
